@@ -1,7 +1,5 @@
 """Home of the `BasicGenerator` class."""
 
-import random
-
 from job_shop_lib import JobShopInstance, Operation
 from job_shop_lib.exceptions import ValidationError
 from job_shop_lib.generation import InstanceGenerator
@@ -112,9 +110,6 @@ class GeneralInstanceGenerator(InstanceGenerator):
                 "jobs as machines can be generated."
             )
 
-        if seed is not None:
-            random.seed(seed)
-
     def __repr__(self) -> str:
         return (
             f"GeneralInstanceGenerator("
@@ -131,7 +126,7 @@ class GeneralInstanceGenerator(InstanceGenerator):
             if not self.allow_less_jobs_than_machines:
                 # At least as many jobs as the smallest number of machines.
                 min_num_jobs = max(min_num_jobs, self.num_machines_range[0])
-            num_jobs = random.randint(min_num_jobs, max_num_jobs)
+            num_jobs = self._rng.randint(min_num_jobs, max_num_jobs)
 
         if num_machines is None:
             min_num_machines, max_num_machines = self.num_machines_range
@@ -144,7 +139,9 @@ class GeneralInstanceGenerator(InstanceGenerator):
                         "machines, which is not allowed when "
                         "`allow_less_jobs_than_machines` attribute is False."
                     )
-            num_machines = random.randint(min_num_machines, max_num_machines)
+            num_machines = self._rng.randint(
+                min_num_machines, max_num_machines
+            )
         elif (
             not self.allow_less_jobs_than_machines and num_jobs < num_machines
         ):
@@ -175,7 +172,7 @@ class GeneralInstanceGenerator(InstanceGenerator):
                 A list of available machine_ids to choose from.
                 If ``None``, all machines are available.
         """
-        duration = random.randint(*self.duration_range)
+        duration = self._rng.randint(*self.duration_range)
 
         if self.machines_per_operation[1] > 1:
             machines = self._choose_multiple_machines(available_machines)
@@ -196,13 +193,13 @@ class GeneralInstanceGenerator(InstanceGenerator):
                 "than there are machines to choose from."
             )
 
-        num_machines = random.randint(*self.machines_per_operation)
+        num_machines = self._rng.randint(*self.machines_per_operation)
         # The machines are drawn from all the given machines; the caller's
         # list is left untouched.
         available_machines = list(available_machines)
         machines = []
         for _ in range(num_machines):
-            machine = random.choice(available_machines)
+            machine = self._rng.choice(available_machines)
             machines.append(machine)
             available_machines.remove(machine)
         return machines
@@ -214,7 +211,7 @@ class GeneralInstanceGenerator(InstanceGenerator):
             _, max_num_machines = self.num_machines_range
             available_machines = list(range(max_num_machines))
 
-        machine_id = random.choice(available_machines)
+        machine_id = self._rng.choice(available_machines)
         if not self.allow_recirculation:
             available_machines.remove(machine_id)
 
